@@ -640,7 +640,18 @@ fn handle_run_request(
                 Err(CommandError::Action(EvalAction::Skip)) => {
                     let stack_frame = env.stack.0.last_mut().unwrap();
 
-                    if stack_frame.exprs_to_eval.pop().is_none() {
+                    let skipped = stack_frame.exprs_to_eval.pop();
+                    if let Some((ExpressionState::NotEvaluated, expr)) = &skipped {
+                        // Whatever uses the value of the skipped
+                        // expression still expects to find one.
+                        if expr.value_is_used {
+                            stack_frame
+                                .evalled_values
+                                .push(crate::values::Value::unit());
+                        }
+                    }
+
+                    if skipped.is_none() {
                         return Response {
                             kind: ResponseKind::RunCommand {
                                 message: "Nothing to skip: no expression is waiting to be evaluated."
